@@ -92,6 +92,11 @@ theorem LockInv.step {s : State} (h : LockInv s) (st : Step) (hv : valid s st = 
           exact h.of_eq rfl rfl rfl rfl rfl rfl
         · exact h.of_eq rfl rfl rfl rfl rfl rfl
       · exact h.of_eq rfl rfl rfl rfl rfl rfl
+  | executeF prio cb =>
+    simp only [Tbox.C05.step]
+    split
+    · exact h
+    · exact h.of_eq rfl rfl rfl rfl rfl rfl
   | cancel id =>
     simp only [Tbox.C05.step]
     split
